@@ -346,8 +346,24 @@ SeqNext == \/ \E tx \in Txs : PutSeq(tx)
            \/ \E tx \in Txs : Remove(tx)
            \/ \E a \in Accounts : Unconfirmed(a)
 
-Spec    == Init /\ [][Next]_vars
-SeqSpec == Init /\ [][SeqNext]_vars
+\* --- the locked part of a put whose lock-free part (cache lookup, validation) passed EARLIER, in another state,
+\* taken in a state where a put started now would be turned away before the lock (where it would not, PutSeq(tx)
+\* is the same step).  Only the lock-gated pair schedules of the harness use it: there both calls do their lock-free
+\* parts in the source state and then enter their critical sections one after the other, so the second critical
+\* section of a pair (put, X) is PutLocked in the state X left behind.  The generation configurations print these
+\* steps ("TF|" lines) and do not follow them (the successor is cut by the action constraint).
+PutForced(tx) ==
+  /\ (tx \in cache \/ Validate(tx, chain[tx.acc]) \notin {"ok", "high"})
+  /\ LET e == PutEffect(tx)
+     IN /\ pool' = e.pool /\ cache' = e.cache /\ length' = e.length /\ orphan' = e.orphan
+        /\ lastAct' = [name |-> "PutLocked", t |-> "", tx |-> tx, res |-> IF e.err = "none" THEN "ok" ELSE "rej", why |-> e.err]
+  /\ UNCHANGED <<chain, notified, pend, lock, cdel, nops>>
+
+PairNext == SeqNext \/ \E tx \in Txs : PutForced(tx)
+
+Spec     == Init /\ [][Next]_vars
+SeqSpec  == Init /\ [][SeqNext]_vars
+PairSpec == Init /\ [][PairNext]_vars     \* SeqSpec + the forced steps (same reachable states: they are never followed)
 
 \* ------------------------------------------------------------------ properties
 AcctStates == UNION {States[a] : a \in Accounts}
